@@ -73,6 +73,9 @@ def toOp (t : Tok) : Option Op :=
   | "rotl" => some (.rotl d a b) | "rotr" => some (.rotr d a b) | "ashr" => some (.ashr d a b)
   | "not" => some (.not d a) | "and" => some (.and d a b) | "or" => some (.or d a b) | "xor" => some (.xor d a b)
   | "setbit" => some (.setbit d a b (argN t 3 == 1)) | "revbits" => some (.revbits d a)
+  | "div" => some (.div d a b) | "rem" => some (.rem d a b) | "gcd" => some (.gcd d a b)
+  | "addmod" => some (.addmod d a b (argN t 3)) | "mulmod" => some (.mulmod d a b (argN t 3))
+  | "wpow" => some (.wpow d a b) | "npow2" => some (.npow2 d a)
   | _ => none
 
 def ofBE (bs : List Nat) : Nat := bs.foldl (fun a b => a * 256 + b) 0
